@@ -202,6 +202,13 @@ func ruleLockset(c *Ctx) []Obligation {
 		st dfState
 	}
 	var accesses []lsAccess
+	ip := newDfInterproc(c, func(info *types.Info, call *ast.CallExpr, st dfState) bool {
+		k, op, ok := dfMutexOp(info, call)
+		if ok {
+			dfApplyMutex(st, k, op)
+		}
+		return ok
+	})
 	callStates := map[*types.Func]dfState{}
 	goTargets := map[*types.Func]bool{}
 	for round := 0; round < 4; round++ {
@@ -222,11 +229,7 @@ func ruleLockset(c *Ctx) []Obligation {
 			}
 			var recs []rec
 			fl := &dfFlow{info: info}
-			fl.Call = func(call *ast.CallExpr, st dfState) {
-				if k, op, ok := dfMutexOp(info, call); ok {
-					dfApplyMutex(st, k, op)
-				}
-			}
+			fl.Call = ip.CallFn(info)
 			fl.At = func(n ast.Node, st dfState) { recs = append(recs, rec{u, n, st.clone()}) }
 			fl.Run(u.body, entry)
 			last := map[ast.Node]int{}
@@ -335,7 +338,7 @@ func ruleLockset(c *Ctx) []Obligation {
 			fields = append(fields, f)
 		}
 	}
-	sort.Slice(fields, func(i, j int) bool { return fields[i].Pos() < fields[j].Pos() })
+	sort.Slice(fields, func(i, j int) bool { return dmPosLess(c, fields[i].Pos(), fields[j].Pos()) })
 	for _, f := range fields {
 		as := byField[f]
 		cand := map[string]bool{}
@@ -511,25 +514,57 @@ func lsCoreIdentity(c *Ctx) []Obligation {
 	st := coreT.Type().Underlying().(*types.Struct)
 	// the identity field: the unsigned integer field of Core compared inside VM.Wait
 	wait := c.MustFunc("homescript/runtime", "VM", "Wait")
+	// (the comparison may sit in Wait itself or in a helper of the package that
+	// Wait calls, e.g. a `removeCore(num)`; one side is a field of a Core, the
+	// other the same field of another core or a value copied from it)
 	var idField *types.Var
-	ast.Inspect(wait.Body, func(n ast.Node) bool {
-		be, ok := n.(*ast.BinaryExpr)
-		if !ok || be.Op != token.EQL {
-			return true
+	isCoreField := func(info *types.Info, e ast.Expr) *types.Var {
+		sel, ok := ast.Unparen(e).(*ast.SelectorExpr)
+		if !ok {
+			return nil
 		}
-		lx, ok1 := ast.Unparen(be.X).(*ast.SelectorExpr)
-		ly, ok2 := ast.Unparen(be.Y).(*ast.SelectorExpr)
-		if ok1 && ok2 && lx.Sel.Name == ly.Sel.Name {
-			if v, ok := rt.TypesInfo.Uses[lx.Sel].(*types.Var); ok && v.IsField() {
-				for i := 0; i < st.NumFields(); i++ {
-					if st.Field(i) == v {
+		v, ok := info.Uses[sel.Sel].(*types.Var)
+		if !ok || !v.IsField() {
+			return nil
+		}
+		if b, ok := v.Type().Underlying().(*types.Basic); !ok || b.Info()&types.IsInteger == 0 {
+			return nil
+		}
+		for i := 0; i < st.NumFields(); i++ {
+			if st.Field(i) == v {
+				return v
+			}
+		}
+		return nil
+	}
+	seenFn := map[*ast.FuncDecl]bool{}
+	var scan func(fd *ast.FuncDecl, depth int)
+	scan = func(fd *ast.FuncDecl, depth int) {
+		if seenFn[fd] || depth > 2 {
+			return
+		}
+		seenFn[fd] = true
+		ast.Inspect(fd.Body, func(n ast.Node) bool {
+			switch x := n.(type) {
+			case *ast.BinaryExpr:
+				if (x.Op == token.EQL || x.Op == token.NEQ) && idField == nil {
+					if v := isCoreField(rt.TypesInfo, x.X); v != nil {
+						idField = v
+					} else if v := isCoreField(rt.TypesInfo, x.Y); v != nil {
 						idField = v
 					}
 				}
+			case *ast.CallExpr:
+				if fn := CalleeOf(rt.TypesInfo, x); fn != nil && fn.Pkg() == rt.Types {
+					if ref := moDeclOf(c, fn); ref != nil && ref.fd.Body != nil {
+						scan(ref.fd, depth+1)
+					}
+				}
 			}
-		}
-		return true
-	})
+			return true
+		})
+	}
+	scan(wait, 0)
 	if idField == nil {
 		return []Obligation{{Key: "runtime.Core|identity field", Status: Undecided, Detail: "VM.Wait no longer compares a Core field of two cores: cannot find the core identity"}}
 	}
@@ -575,7 +610,7 @@ func lsCoreIdentity(c *Ctx) []Obligation {
 		}
 		idx := dmParamIndex(fn, p)
 		var out []src
-		for caller := range a.callers[fn] {
+		for _, caller := range a.sortedCallers(fn) {
 			for _, b := range caller.Blocks {
 				for _, in := range b.Instrs {
 					ci, ok := in.(ssa.CallInstruction)
@@ -737,14 +772,26 @@ func lsSpawnClone(c *Ctx) []Obligation {
 				return true
 			})
 			cloned := false
-			ast.Inspect(scopeNode, func(m ast.Node) bool {
-				if cl, ok := m.(*ast.CallExpr); ok {
-					if f := CalleeOf(info, cl); f != nil && f.Name() == "Clone" && strings.HasSuffix(f.Pkg().Path(), "runtime/value") {
-						cloned = true
+			var hasClone func(node ast.Node, depth int)
+			hasClone = func(node ast.Node, depth int) {
+				ast.Inspect(node, func(m ast.Node) bool {
+					if cl, ok := m.(*ast.CallExpr); ok && !cloned {
+						f := CalleeOf(info, cl)
+						switch {
+						case f == nil || f.Pkg() == nil:
+						case f.Name() == "Clone" && strings.HasSuffix(f.Pkg().Path(), "runtime/value"):
+							cloned = true
+						case f.Pkg() == rt.Types && depth < 2 && f != fn:
+							// a helper of the package that pops / prepares the arguments
+							if ref := moDeclOf(c, f); ref != nil && ref.fd.Body != nil {
+								hasClone(ref.fd.Body, depth+1)
+							}
+						}
 					}
-				}
-				return true
-			})
+					return true
+				})
+			}
+			hasClone(scopeNode, 0)
 			ob := Obligation{Key: fmt.Sprintf("runtime.%s|%sarguments of the new core are cloned", FuncName(fd), ctx), Pos: c.Pos(call.Pos()), Nontrivial: true}
 			if cloned {
 				ob.Status, ob.Detail = Discharged, "the values handed to the new core pass through Value.Clone"
